@@ -66,7 +66,7 @@ ASSUMPTIONS = [
     "[FileInfo] is not compared (time stamps; export_eds' mutable default argument leaks keys between calls)",
     "compact arrays of a model are built in code as arrays with explicit members (at most 20)",
 ]
-BUDGET = {"quick": 35, "thorough": 240}
+BUDGET = {"quick": 150, "thorough": 240}
 
 _feature_counts = Counter()
 VAR_ATTRS = ("name", "index", "subindex", "data_type", "access_type", "pdo_mappable", "default",
